@@ -131,20 +131,39 @@ Section Move.
 End Move.
 
 (* ---- the floating-point special values of the last line --------------------------
-   np.reciprocal(np.sqrt(d)): d < 0 gives nan (sqrt of a negative number; numpy warns,
-   does not raise), d = +0.0 gives inf, d > 0 the finite value.  (d = -0.0, giving
-   -inf, cannot be produced by the additions of the loop from positive leg sizes.) *)
+   np.reciprocal(np.sqrt(d)), every class of binary64 argument (numpy warns, never raises):
+     d nan            nan   (reachable with real objects: a ray that meets the same point of
+                            the same wall twice has a zero-length leg, hence a nan angle
+                            arccos(0/0), a nan gamma and a nan virtual distance)
+     d < 0 or -inf    nan   (sqrt of a negative number)
+     d = +0.0         +inf
+     d = -0.0         -inf  (np.sqrt(-0.0) = -0.0 and 1 / -0.0 = -inf; the additions of the
+                            loop cannot produce it, because the first term inc_leg_size is
+                            a square root, +0.0 at least, and +0.0 + x is never -0.0 -- the
+                            class is modelled all the same so that the reading is total)
+     d > 0 or +inf    the value 1 / sqrt(d) (finite, +0.0 for d = +inf)
+   The tests use only the comparisons of the Num record:
+     d is nan      <->  not (d == d)
+     d is -0.0     <->  d == 0 and 1 / d < 0          (1 / -0.0 = -inf, 1 / +0.0 = +inf)
+   Over the reals (and the rationals) d == d always holds and 1 / 0 = 0 is not negative
+   (Coq's total division), so the classes NaN-by-nan and MinusInf are never taken there and
+   the real-number reading is the three-class one: d < 0 NaN, d = 0 PlusInf, d > 0 Finite.
+   (Before the repair of this definition the nan test was missing: d = nan fell through
+   both comparisons and was classified `Finite nan`; d = -0.0 was classified PlusInf.) *)
 Inductive fval (T : Type) : Type :=
 | Finite (x : T)
 | PlusInf
+| MinusInf
 | NaN.
-Arguments Finite {T}. Arguments PlusInf {T}. Arguments NaN {T}.
+Arguments Finite {T}. Arguments PlusInf {T}. Arguments MinusInf {T}. Arguments NaN {T}.
 
 Section Outcome.
   Context {T : Type} (N : Num T).
   Definition recip_sqrt_outcome (d : T) : fval T :=
-    if nltb N d (n0 N) then NaN
-    else if neqb N d (n0 N) then PlusInf
+    if negb (neqb N d d) then NaN
+    else if nltb N d (n0 N) then NaN
+    else if neqb N d (n0 N) then
+           (if nltb N (ndiv N (n1 N) d) (n0 N) then MinusInf else PlusInf)
     else Finite (ndiv N (n1 N) (nsqrt N d)).
   Definition beamspread_outcome (vel legs thetas : list T) : fval T :=
     recip_sqrt_outcome (virtual_distance N legs (gamma_list N vel thetas)).
